@@ -26,6 +26,10 @@ type RdbReplay struct {
 	KeyExists       string
 	KeyExistsLog    bool
 	ReplaceHashTag  bool
+
+	// key of the value whose first chunk was skipped by the "ignore" policy,
+	// the remaining chunks of a split value must be skipped as well
+	ignoredKey []byte
 }
 
 func (rr *RdbReplay) Replay(e *rdb.BinEntry) (err error) {
@@ -61,6 +65,7 @@ func (rr *RdbReplay) Replay(e *rdb.BinEntry) (err error) {
 			return fmt.Errorf("rdb module object requires RESTORE replay for key %s", e.Key)
 		}
 		if e.FirstBin() {
+			rr.ignoredKey = nil
 			exist, err := common.Bool(rr.Client.Do("exists", e.Key))
 			if err != nil {
 				return err
@@ -79,10 +84,15 @@ func (rr *RdbReplay) Replay(e *rdb.BinEntry) (err error) {
 					if rr.KeyExistsLog {
 						log.Warnf("output key exist, ignore it : %s", e.Key)
 					}
+					// keep the existing key as it is : nothing of the snapshot's value is merged into it
+					rr.ignoredKey = append([]byte(nil), e.Key...)
+					return nil
 				case "error":
 					return fmt.Errorf("output key exist : %s", e.Key)
 				}
 			}
+		} else if rr.ignoredKey != nil && bytes.Equal(rr.ignoredKey, e.Key) {
+			return nil
 		}
 
 		err = restoreBigRdbEntry(rr.Client, e)
